@@ -92,6 +92,31 @@ var lexEscapes = []string{`\u001b`, `\u0000`, `\u000b`, `\u0007`, `\u001f`, `\u0
 	`\/`, `\b`, `\f`, `\n`, `\r`, `\t`, `\"`, `\\\\`, `\u0041`, `\u005c`, `\u0022`}
 var lexOdd = []string{`\ud83d`, `\udc00`, `\ud83d\u0041`, `\ud83dx`}
 
+// digestLike: strings shaped like the output of a hash (API keys, session tokens, ETags): 32 / 40 / 64 hex
+// characters (and 31 / 33), lower / upper / mixed case, and ACTUAL MD5 digests of values and pre-images that
+// occur elsewhere in the generated documents.
+func digestLike(r *prng.R) string {
+	const hexd = "0123456789abcdef"
+	var s string
+	if r.Chance(40) {
+		s = md5hex(prng.Pick(r, append([]string{"10.00", "0.00", "1.00", "true", "false", "null", "s0", "s1"}, strPool...)))
+	} else {
+		n := prng.Pick(r, []int{32, 32, 32, 40, 64, 31, 33})
+		var b strings.Builder
+		for i := 0; i < n; i++ {
+			b.WriteByte(hexd[r.Intn(16)])
+		}
+		s = b.String()
+	}
+	switch r.Intn(4) {
+	case 0:
+		s = strings.ToUpper(s)
+	case 1:
+		s = caseVariant(r, s)
+	}
+	return s
+}
+
 func genLexeme(r *prng.R) string {
 	var b strings.Builder
 	n := r.Range(1, 4)
@@ -139,6 +164,9 @@ func (g *gctx) leaf() *jv {
 	default:
 		if g.plain {
 			return &jv{k: kStr, s: prng.Pick(r, plainStrs)}
+		}
+		if r.Chance(7) {
+			return &jv{k: kStr, s: digestLike(r)}
 		}
 		if r.Chance(40) {
 			lx := genLexeme(r)
